@@ -99,6 +99,7 @@ type Place struct {
 
 type fctx struct {
 	callRes map[string][]Term // results of the last contract-call of each callee (root context; $result)
+	callBlock *ssa.BasicBlock // inlined helper: the block of the enclosing function that contains the call
 	vc      *VC
 	fn      *ssa.Function
 	con     *Contract
@@ -1936,6 +1937,13 @@ func (f *fctx) registerHeapKey(k string) {
 // non-nil, phi names resolve to the values flowing in along the edge from->h.
 func (f *fctx) loopEnv(h *ssa.BasicBlock, from *ssa.BasicBlock, st *State) *Env {
 	vars := map[string]Term{}
+	// a contract-less helper translated in place: the names of the enclosing function at the call site stay
+	// visible (invariants of loops that were extracted into the helper keep talking about them)
+	if f.inline && f.parent != nil && f.callBlock != nil {
+		for n, t := range f.parent.namesAt(f.callBlock, st) {
+			vars[n] = t
+		}
+	}
 	for n, t := range f.paramTerms {
 		vars[n] = t
 	}
@@ -2008,7 +2016,14 @@ func (f *fctx) loopEnv(h *ssa.BasicBlock, from *ssa.BasicBlock, st *State) *Env 
 		}
 	}
 	// range indices of every loop already entered, by loop ordinal: $i0, $i1, ...
+	ordShift := 0
+	if f.inline && f.parent != nil && f.callBlock != nil {
+		if root := f.rootFctx(); root.fn != nil {
+			ordShift = countLoops(root.fn)
+		}
+	}
 	for hh, ord := range f.loopOrd {
+		ord += ordShift
 		for _, ins := range hh.Instrs {
 			phi, ok := ins.(*ssa.Phi)
 			if !ok {
@@ -2198,6 +2213,58 @@ func (f *fctx) sliceTermOf(x ssa.Value) *Term {
 		return &t
 	}
 	return nil
+}
+
+// namesAt: the named values of this function that are visible in block b (parameters, named locals reaching b,
+// range indices $iN of the loops entered so far), for the invariants of loops extracted into an inlined helper.
+func (f *fctx) namesAt(b *ssa.BasicBlock, st *State) map[string]Term {
+	out := map[string]Term{}
+	if f.inline && f.parent != nil && f.callBlock != nil {
+		for n, t := range f.parent.namesAt(f.callBlock, st) {
+			out[n] = t
+		}
+	}
+	for n, t := range f.paramTerms {
+		out[n] = t
+	}
+	defs := f.reachingDefs(b)
+	// b itself is not a dominator of b: add the phis and named values defined in the dominators only (reachingDefs)
+	for name, v := range defs {
+		if key, ok := f.mapKey[v]; ok {
+			if t, ok := st.cells[key]; ok {
+				if t.Ty == nil {
+					t.Ty = v.Type()
+				}
+				out[name] = t
+			}
+			continue
+		}
+		if t, ok := f.vals[v]; ok && t.Sort != nil && t.Sort.Kind != KFunc && t.Sort.Kind != KTuple {
+			out[name] = t
+		}
+	}
+	for hh, ord := range f.loopOrd {
+		if !(hh == b || hh.Dominates(b)) {
+			continue
+		}
+		for _, ins := range hh.Instrs {
+			phi, ok := ins.(*ssa.Phi)
+			if !ok {
+				break
+			}
+			if phi.Comment == "rangeindex" {
+				if t, ok := f.vals[phi]; ok {
+					out[fmt.Sprintf("$i%d", ord)] = T(SInt, "(+ %s 1)", t.S)
+				}
+			}
+		}
+		if phi := canonicalInduction(hh); phi != nil {
+			if t, ok := f.vals[phi]; ok {
+				out[fmt.Sprintf("$i%d", ord)] = t
+			}
+		}
+	}
+	return out
 }
 
 func hasRangeIndex(h *ssa.BasicBlock) bool {
